@@ -70,6 +70,17 @@ def mk_name(rnd, base, idx, long_):
     return f"{base}{idx}"
 
 
+RECEIVER_NAMES = {"INSTANCE": ["self", "self", "self", "this", "me", "_", "s"],
+                  "CLASS": ["cls", "cls", "klass", "mcs", "this"],
+                  "PROPERTY": ["self", "self", "this", "me", "_"]}
+
+
+def receiver_name(rnd, fkind):
+    """the receiver is whatever comes FIRST in a method, classmethod or property, whatever it is called"""
+    names = RECEIVER_NAMES.get(fkind)
+    return rnd.choice(names) if names else None
+
+
 def gen_params(rnd, present, total, long_names, receiver=None, annotate=0.2):
     """a valid parameter list using exactly the kinds in `present` (plus the receiver), about `total` parameters"""
     present = set(present)
@@ -103,6 +114,12 @@ def gen_params(rnd, present, total, long_names, receiver=None, annotate=0.2):
         idx += 1
     if counts["VK"]:
         ps.append(PSpec(mk_name(rnd, "kw", idx, long_names and rnd.random() < 0.5), "VK"))
+    named = [p for p in ps if p.kind in ("PO", "PK", "KO") and p.name != receiver]
+    if named and rnd.random() < 0.3:
+        if not receiver:
+            named[0].name = rnd.choice(["self", "cls"])        # a function / staticmethod whose FIRST parameter is `self`
+        elif receiver not in ("self", "cls"):
+            named[-1].name = rnd.choice(["self", "cls"])       # `def m(this, ..., self)`: only position 0 is the receiver
     for p in ps:
         if rnd.random() < annotate and p.name != receiver:
             p.anno = rnd.choice(SRC_ANNOS)
@@ -127,9 +144,9 @@ def gen_module_specs(rnd, subsets, n_extra, n_edge=3, modname=None):
 
     def add(present, placement, total=None, long_names=None):
         path, fkind = placement
-        receiver = {"INSTANCE": "self", "CLASS": "cls", "PROPERTY": "self"}.get(fkind)
+        receiver = receiver_name(rnd, fkind)
         if fkind == "PROPERTY":
-            params = [PSpec("self", "PK")]
+            params = [PSpec(receiver, "PK")]
             flavour = "plain"
         else:
             total = rnd.randrange(0, 9) if total is None else total
@@ -155,7 +172,7 @@ def gen_module_specs(rnd, subsets, n_extra, n_edge=3, modname=None):
         ("cmethw", ["Zeta"], "CLASS", [], "ret"), ("smethw", ["Outer"], "STATIC", ["KO"], "name"),
     ]
     for base, path, fkind, present, how in rnd.sample(edge, n_edge):
-        receiver = {"INSTANCE": "self", "CLASS": "cls"}.get(fkind)
+        receiver = receiver_name(rnd, fkind)
         params = gen_params(rnd, present, len(present), False, receiver, annotate=0.0)
         name = very_long_name(rnd, base, len(specs)) if how == "name" else f"{base}{len(specs)}"
         flavour = rnd.choice(["plain", "plain", "coroutine"])
@@ -175,7 +192,7 @@ def annotated_defaulted_specs(rnd, base):
     out = []
     for j, (path, fkind) in enumerate(rnd.sample([([], "MODULE"), (["Outer"], "INSTANCE"), (["Outer"], "STATIC"),
                                                   (["Zeta"], "CLASS")], 2)):
-        receiver = {"INSTANCE": "self", "CLASS": "cls"}.get(fkind)
+        receiver = receiver_name(rnd, fkind)
         params = [PSpec(receiver, "PK")] if receiver else []
         shape = rnd.choice([["PO", "PK", "KO"], ["PK", "PK", "VP", "KO", "KO", "VK"], ["PO", "PO", "PK", "KO"], ["PK", "KO"]])
         if receiver and "PO" in shape:
@@ -225,9 +242,9 @@ def same_named_nested_specs(rnd, base):
 
 def make_spec(rnd, name, path, fkind, max_params=6):
     """one function of the given name / placement / kind with a fresh random parameter list and flavour"""
-    receiver = {"INSTANCE": "self", "CLASS": "cls", "PROPERTY": "self"}.get(fkind)
+    receiver = receiver_name(rnd, fkind)
     if fkind == "PROPERTY":
-        return FSpec(name, [PSpec("self", "PK")], list(path), fkind, "plain", rnd.choice([None, "int"]))
+        return FSpec(name, [PSpec(receiver, "PK")], list(path), fkind, "plain", rnd.choice([None, "int"]))
     present = [k for k in KINDS if rnd.random() < 0.45]
     params = gen_params(rnd, present, rnd.randrange(0, max_params + 1), rnd.random() < 0.2, receiver)
     return FSpec(name, params, list(path), fkind, rnd.choice(FLAVOURS), rnd.choice([None, None, "int"]))
